@@ -480,6 +480,7 @@ func (g *Gen) fieldOf(st *State, base, field string, env map[string]Val) Val {
 					}
 				}
 			}
+			cur0 := cur.T
 			e := fmt.Sprintf("(select %s %s)", h, cur.T)
 			k := "int"
 			if g.heapSort[key] == "(Array Int Bool)" {
@@ -488,6 +489,26 @@ func (g *Gen) fieldOf(st *State, base, field string, env map[string]Val) Val {
 			cur = Val{T: e, Kind: k, Ty: ft}
 			if mt, ok := ft.Underlying().(*types.Map); ok {
 				cur = g.mapFromRef(st, e, mt, ft)
+			}
+			if _, ok := ft.Underlying().(*types.Slice); ok {
+				// slice-typed field: reference, offset and length live in three arrays (instr.go heapRead)
+				part := func(sfx string) string {
+					kk := key + sfx
+					if _, ok := g.heapSort[kk]; !ok {
+						g.heapSort[kk] = "(Array Int Int)"
+					}
+					hh := g.heapGet(st, kk)
+					if isOld {
+						hh = g.entryHeapOf(kk)
+					}
+					return fmt.Sprintf("(select %s %s)", hh, cur0)
+				}
+				off, ln := part("#off"), part("#len")
+				g.assume(st, fmt.Sprintf("(and (>= %s 0) (<= 0 %s) (<= %s %s) (<= 0 %s) (<= %s %s) (=> (= %s 0) (= %s 0)))", e, off, off, maxLen, ln, ln, maxLen, e, ln))
+				cur = Val{Ref: e, Off: off, Len: ln, Kind: "slice", Ty: ft}
+			}
+			if _, ok := ft.Underlying().(*types.Pointer); ok {
+				cur.Kind = "opaque"
 			}
 			t = ft
 			continue
